@@ -1062,13 +1062,15 @@ class ParallelFilter(FilterList):
   def numpoly(self):
     if not self.is_linear():
       raise AttributeError("Non-linear filter")
-    return reduce(operator.add, self).numpoly
+    return reduce(operator.add, (filt if callable(filt) else ZFilter(filt)
+                                 for filt in self)).numpoly
 
   @property
   def denpoly(self):
     if not self.is_linear():
       raise AttributeError("Non-linear filter")
-    return reduce(operator.add, self).denpoly # Same fraction as in numpoly
+    return reduce(operator.add, (filt if callable(filt) else ZFilter(filt)
+                                 for filt in self)).denpoly # Same fraction
 
   @elementwise("freq", 1)
   def freq_response(self, freq):
